@@ -61,6 +61,9 @@ type Environment interface {
 }
 
 type Network struct {
+	// SendFails, when set, lets the environment make a send fail locally (ENETUNREACH, ENOBUFS ...):
+	// nothing leaves the host.
+	SendFails func(p Packet) error
 	e       *Exec
 	socks   []*sockState
 	Packets []Packet // everything the library put on the wire
@@ -338,6 +341,12 @@ func writeUDP(n *Network, s *sockState, b []byte, dst string) (int, error) {
 		return 0, opErr("write", "udp", s, &timeoutError{})
 	}
 	p := Packet{Proto: "udp", Src: fmt.Sprintf("%s:%d", s.localIP, s.localPort), Dst: dst, Data: append([]byte{}, b...), At: e.clock, SrcSock: s.fd}
+	if n.SendFails != nil {
+		if err := n.SendFails(p); err != nil { // the local stack refuses to send (no route, buffers full ...)
+			e.note(e.cur, "write-fails")
+			return 0, opErr("write", "udp", s, err)
+		}
+	}
 	n.Packets = append(n.Packets, p)
 	e.note(e.cur, "write")
 	if n.Env != nil {
@@ -557,6 +566,12 @@ func (c *dconn) Write(b []byte) (int, error) {
 		return 0, opErr("write", "tcp", s, os.NewSyscallError("write", syscall.ECONNRESET))
 	}
 	p := Packet{Proto: "tcp", Src: fmt.Sprintf("%s:%d", s.localIP, s.localPort), Dst: s.peer, Data: append([]byte{}, b...), At: e.clock, SrcSock: s.fd}
+	if n.SendFails != nil {
+		if err := n.SendFails(p); err != nil {
+			e.note(e.cur, "write-fails")
+			return 0, opErr("write", "tcp", s, err)
+		}
+	}
 	n.Packets = append(n.Packets, p)
 	e.note(e.cur, "write")
 	if n.Env != nil {
